@@ -247,7 +247,11 @@ def check_entry(sess: Session, module: str, fname: str, ctor: str, skip: Dict[st
     else:
         r = _norm_call(kw.get("residuals"), "_calculate_residuals")
         ok = r is not None and r.get("Z_fit") == imp_src and "Z_exp" in r
-        sess.check("post", [], z3.BoolVal(bool(ok)), ctor_call.lineno, label=tag + "residuals = _calculate_residuals(Z_exp, <what is passed as impedances>)")
+        if r is None:
+            # computed some other way (a helper, a precomputed name): not judged here
+            sess.unsupported(f"{fname}: residuals are not a direct call of _calculate_residuals ({ast.unparse(kw.get('residuals'))[:60] if kw.get('residuals') is not None else 'missing'})", ctor_call.lineno)
+        else:
+            sess.check("post", [], z3.BoolVal(bool(ok)), ctor_call.lineno, label=tag + "residuals = _calculate_residuals(Z_exp, <what is passed as impedances>)")
         if ok:
             zexp = ast.parse(r["Z_exp"], mode="eval").body
             sess.check("post", [], z3.BoolVal(all_defs_are(zexp, f"{data_param}.get_impedances()")), ctor_call.lineno, label=tag + f"the Z_exp of the residuals is {data_param}.get_impedances() (every definition)")
@@ -267,7 +271,11 @@ def check_entry(sess: Session, module: str, fname: str, ctor: str, skip: Dict[st
             ds = _defs(fn, c.id)
             forms = [_norm_call(d, "_calculate_pseudo_chisqr") if d is not None else None for d in ds]
             ok = bool(forms) and all(fm is not None and fm.get("Z_fit") == imp.id and "Z_exp" in fm for fm in forms) and len({fm["Z_exp"] for fm in forms if fm}) == 1
-            sess.check("post", [], z3.BoolVal(ok), ctor_call.lineno, label=tag + "every definition of the statistic is _calculate_pseudo_chisqr(Z_exp, <the name passed as impedances>)")
+            if not forms or any(fm is None for fm in forms):
+                sess.unsupported(f"{fname}: a definition of {c.id} is not a direct call of _calculate_pseudo_chisqr", ctor_call.lineno)
+                ok = False
+            else:
+                sess.check("post", [], z3.BoolVal(ok), ctor_call.lineno, label=tag + "every definition of the statistic is _calculate_pseudo_chisqr(Z_exp, <the name passed as impedances>)")
             if ok:
                 zexp_src = forms[0]["Z_exp"]
                 zexp = ast.parse(zexp_src, mode="eval").body
@@ -276,7 +284,7 @@ def check_entry(sess: Session, module: str, fname: str, ctor: str, skip: Dict[st
                 stale = _stale_at(fn, ctor_stmt, c.id, inputs, "_calculate_pseudo_chisqr", forms[0])
                 sess.check("post", [], z3.BoolVal(stale is False), ctor_call.lineno, label=tag + "the statistic is never stale: no path reassigns the model impedance after the last computation of pseudo_chisqr")
         else:
-            sess.check("post", [], z3.BoolVal(False), ctor_call.lineno, label=tag + "pseudo_chisqr is computed by _calculate_pseudo_chisqr from what is passed as impedances")
+            sess.unsupported(f"{fname}: pseudo_chisqr is neither a direct call of _calculate_pseudo_chisqr nor a name defined by one", ctor_call.lineno)
 
 
 DRT = [
